@@ -79,6 +79,7 @@ pub fn handle(op: &str, cmd: &Value) -> Value {
             json!({"all_ok": ok_empty && ok_ident && ok_ns && ok_disp, "is_empty": ok_empty, "ident": ok_ident, "namespace": ok_ns, "display": ok_disp})
         }
         "table_step" => table_step(cmd),
+        "builder_laws" => crate::builders::battery(),
         "registry_laws" => crate::laws::battery(cmd["seed"].as_u64().unwrap_or(0)),
         "metatype_laws" => crate::meta::laws(),
         "retain" => {
